@@ -18,6 +18,7 @@ after creation.
 """
 
 from copy import copy, deepcopy
+from numbers import Real
 from typing import TYPE_CHECKING, Any, Union
 
 import matplotlib.pyplot as plt
@@ -643,6 +644,14 @@ class Circuit:
         """
         Maps a provided mode to the corresponding internal mode
         """
+        # Integer-valued numbers (numpy integers, 2.0) are accepted as modes,
+        # these are stored as int so that the circuit can be compiled
+        if (
+            isinstance(mode, Real)
+            and not isinstance(mode, int)
+            and mode // 1 == mode
+        ):
+            mode = int(mode)
         for i in sorted(self.__internal_modes):
             if mode >= i:
                 mode += 1
